@@ -5,15 +5,20 @@
 package main
 
 import (
-	"github.com/rulego/streamsql"
 	"bufio"
 	"encoding/hex"
 	"fmt"
+	"math"
 	"math/rand"
 	"os"
+	"runtime"
 	"sort"
 	"strconv"
 	"strings"
+	"time"
+
+	"github.com/rulego/streamsql"
+	"github.com/rulego/streamsql/functions"
 )
 
 // Case is one block of the line protocol.
@@ -95,6 +100,11 @@ func safeExec(p Prop, c Case) (obs [][][]string) {
 		}
 	}
 	defer func() { curPreset = "" }()
+	for _, l := range c.Cfg {
+		if len(l) == 2 && l[0] == "noise" && l[1] == "1" {
+			noisePrelude()
+		}
+	}
 	defer func() {
 		if r := recover(); r != nil {
 			obs = append(obs, [][]string{{"panic", hx(fmt.Sprint(r))}})
@@ -239,6 +249,10 @@ var subcommands = map[string]func(w *bufio.Writer, args []string){}
 var curPreset string
 
 func withPreset(c *Case) {
+	if c.Idx%7 == 6 {
+		c.Cfg = append(c.Cfg, []string{"noise", "1"})
+		c.Stat = append(c.Stat, "after-noise-prelude")
+	}
 	if c.Idx%5 == 4 {
 		c.Cfg = append(c.Cfg, []string{"preset", "high"})
 		c.Stat = append(c.Stat, "preset-high-performance")
@@ -261,4 +275,54 @@ func presetOpt() streamsql.Option {
 		return streamsql.WithLowLatency()
 	}
 	return func(*streamsql.Streamsql) {}
+}
+
+// noisePrelude (cfg `noise 1`, every seventh case): before the case runs, other instances of this process go through
+// things that go wrong — statements that fail to parse or to compile and are then corrected, malformed rows (nil map,
+// wrong types, NaN, missing and garbage timestamps), a sink and a custom function that panic or fail, Stop with rows in
+// flight. None of it is an observable; the case that follows must behave as if it had not happened (process-wide caches,
+// pools and registries are shared). The prelude waits for its own goroutines to end.
+func noisePrelude() {
+	base := runtime.NumGoroutine()
+	try := func(f func()) {
+		defer func() { _ = recover() }()
+		f()
+	}
+	rows := []map[string]interface{}{nil, {}, {"a": "zz", "s": 5, "k": nil}, {"a": math.NaN(), "s": nil, "k": "x"}, {"a": 2, "s": "xy", "k": "x", "v": 1, "ts": int64(1700000000000)},
+		{"a": []int{1}, "k": map[string]interface{}{"z": 1}, "v": "junk", "ts": "garbage"}, {"a": 3, "s": "x%", "k": "y", "v": 2.5, "ts": int64(4102444800000)}, {"a": -1, "k": "x", "v": nil}}
+	_ = functions.RegisterCustomFunction("zznoise", functions.TypeCustom, "verif", "fails on odd input", 1, 1,
+		func(ctx *functions.FunctionContext, args []interface{}) (interface{}, error) {
+			if f, ok := args[0].(float64); ok && f == 3 {
+				panic("zznoise")
+			}
+			if _, ok := args[0].(string); ok {
+				return nil, fmt.Errorf("zznoise: text")
+			}
+			return args[0], nil
+		})
+	for _, q := range []struct{ bad, bad2, good string }{
+		{"SELEC a FROM", "SELECT a FROM stream WHERE (a > 1", "SELECT a, upper(s) AS u, a + 1 AS b, zznoise(a) AS z FROM stream WHERE a > 1 AND s LIKE 'x%'"},
+		{"SELECT k, count(* FROM stream", "SELECT k, count(*) AS c FROM stream WHERE a > 1 AND GROUP BY k, TumblingWindow('1s')",
+			"SELECT k, count(*) AS c, sum(v) AS s FROM stream GROUP BY k, TumblingWindow('1s') WITH (TIMESTAMP='ts', TIMEUNIT='ms')"},
+		{"SELECT lag(v OVER FROM stream", "SELECT lag(v) OVER (PARTITION BY k) AS p FROM stream WHERE v >", "SELECT k, lag(v) OVER (PARTITION BY k) AS p FROM stream WHERE v > 0"},
+		{"SELECT k FROM stream GROUP BY k, CountingWindow(", "SELECT k, count(*) AS c FROM stream WHERE a in (1,2) GROUP BY k, CountingWindow(2)", "SELECT k, count(*) AS c, max(v) AS m FROM stream GROUP BY k, CountingWindow(2) HAVING c > 0 ORDER BY m DESC LIMIT 1"},
+	} {
+		s := streamsql.New(streamsql.WithDiscardLog())
+		try(func() { _ = s.Execute(q.bad) })
+		try(func() { _ = s.Execute(q.bad2) })
+		try(func() { _ = s.Execute(q.good) })
+		try(func() { s.AddSink(func(r []map[string]interface{}) { panic("noise sink") }) })
+		try(func() { s.AddSyncSink(func(r []map[string]interface{}) {}) })
+		for _, r := range rows {
+			r := r
+			try(func() { s.Emit(r) })
+			try(func() { _, _ = s.EmitSync(r) })
+		}
+		try(func() { s.Stop() })
+	}
+	functions.Unregister("zznoise")
+	deadline := time.Now().Add(3 * time.Second)
+	for runtime.NumGoroutine() > base && time.Now().Before(deadline) {
+		time.Sleep(time.Millisecond)
+	}
 }
